@@ -21,14 +21,14 @@ type C18Event struct {
 }
 
 type C18Case struct {
-	Present []string   `json:"present"` // files of the universe that exist initially
-	Mods    []string   `json:"mods"`    // require("<mod>") strings used in main.lua
-	Dofiles []string   `json:"dofiles"` // dofile("<path>") strings
-	Sep     string     `json:"sep"`     // RequirePathSeparator setting
+	Present []string `json:"present"` // files of the universe that exist initially
+	Mods    []string `json:"mods"`    // require("<mod>") strings used in main.lua
+	Dofiles []string `json:"dofiles"` // dofile("<path>") strings
+	Sep     string   `json:"sep"`     // RequirePathSeparator setting
 	// AfterString[i]: the i-th require is written after another string literal on its line
 	// (local s, m = "tag", require("mod"))
-	AfterString []bool `json:"afterString,omitempty"`
-	Events  []C18Event `json:"events"`
+	AfterString []bool     `json:"afterString,omitempty"`
+	Events      []C18Event `json:"events"`
 }
 
 func init() { register("C18", checkC18) }
